@@ -362,8 +362,13 @@ func makeIllFormed(r *rand.Rand, rg routeGen, pool *[]segGen) aRoute {
 		a2 := aSeg{K: "A", T: "{m2: **}", Binds: []string{"m2"}, Els: []aEl{{Ty: "bind", V: "m2", G: 1}}}
 		segs = append([]aSeg{a1, a2}, segs...)
 	case 5: // expression that does not compile
-		segs = append(segs[:len(segs):len(segs)], aSeg{K: "R", T: "{bad: /(/}", Binds: []string{"bad"}, Bad: true, Grp: true,
-			Els: []aEl{{Ty: "bind", V: "bad", G: 1, Re: "("}}})
+		// ... on its own: "a)(b" only compiles once it is wrapped in the parentheses of the bind
+		bad := pick(r, []string{"(", "a)(b", ")(", "a)|(b", "[a", "x{2,1}", "a)(b"})
+		segs = append(segs[:len(segs):len(segs)], aSeg{K: "R", T: "{bad: /" + bad + "/}", Binds: []string{"bad"}, Bad: true, Grp: true,
+			Els: []aEl{{Ty: "bind", V: "bad", G: 1, Re: bad}}})
+		if r.Intn(3) == 0 {
+			segs = append(segs, aSeg{K: "S", T: "z", Binds: []string{}, Els: []aEl{{Ty: "lit", V: "z"}}}) // at a non-final position too
+		}
 		for i := range segs[:len(segs)-1] {
 			segs[i].Opt = false
 		}
